@@ -1182,6 +1182,44 @@ var mutations = []mutation{
 			return o
 		})
 	}},
+	{"p-wrap-object", func(r *hx.Rng, ps []part, c cfg, o *signed) []part {
+		// XML signature wrapping: a payload part is altered; in front of the signed package object (the Id="idPackageObject"
+		// target of the SignedInfo reference, left untouched) the signature part gets an unreferenced copy of it, without the Id,
+		// whose manifest lists the digest of the altered part.  The part digests must be judged on the element the signature covers.
+		i := pickIdx(r, ps, func(p part) bool { return uniq(ps)(p) && isPayload(p) })
+		h, ok := hashes[c.hash]
+		if i < 0 || !ok {
+			return nil
+		}
+		oldSum, newData := h.New(), flip(r, ps[i].data)
+		oldSum.Write(ps[i].data)
+		newSum := h.New()
+		newSum.Write(newData)
+		oldB64 := base64.StdEncoding.EncodeToString(oldSum.Sum(nil))
+		newB64 := base64.StdEncoding.EncodeToString(newSum.Sum(nil))
+		done := false
+		out := editNamed(r, ps, c.sigName(), func(r *hx.Rng, d []byte) []byte {
+			a := bytes.Index(d, []byte("<Object Id=\"idPackageObject\""))
+			e := bytes.Index(d, []byte("</Object>"))
+			if a < 0 || e < a || !bytes.Contains(d[a:e], []byte(oldB64)) {
+				return d
+			}
+			e += len("</Object>")
+			cp := bytes.Replace(append([]byte(nil), d[a:e]...), []byte(" Id=\"idPackageObject\""), nil, 1)
+			cp = bytes.Replace(cp, []byte(oldB64), []byte(newB64), 1)
+			done = true
+			return append(append(append([]byte(nil), d[:a]...), cp...), d[a:]...)
+		})
+		if !done || out == nil {
+			return nil
+		}
+		for k := range out {
+			if out[k].name == ps[i].name {
+				out[k].data = newData
+			}
+		}
+		return out
+	}},
 	{"s-sig-swapped", func(r *hx.Rng, ps []part, c cfg, o *signed) []part {
 		// the signature part of another signing (same or other package, same or other key)
 		if o == nil {
